@@ -209,6 +209,44 @@ func init() {
 		finish(x, n, nil, "")
 	})
 
+	// S-sync-burst-held: the leader's worker is held inside a slow RequestNewBlockProposal that ignores its context
+	// (only the harness lets it go). Three accepted syncs of increasing heights arrive from one thread, a fourth from
+	// another; the slow call is released only AFTER they have all returned: UpdateState must never wait for the worker
+	// (each newer sync replaces the pending one in the one-slot hand-off). Ends above the newest block.
+	registerBoth("S-sync-burst-held", []string{"C14", "C15"}, 1, 3, 4, func(x *X, cancel bool) {
+		n := newNode(x, 0)
+		hold := make(chan struct{})
+		n.HoldReq[1] = hold
+		n.Boot()
+		s := x.S
+		returned := 0
+		s.Thread("sync-a", func() {
+			for _, h := range []uint64{2, 4, 6} {
+				n.M.UpdateState(n.Ctx, kit.NewBlock(h, fmt.Sprintf("B%d", h)), n.proofFor(h, fmt.Sprintf("B%d", h)))
+				returned++
+			}
+			vs.Closed(hold)
+			close(hold) // the consumer's slow call comes back only now
+		})
+		s.Thread("sync-b", func() {
+			n.M.UpdateState(n.Ctx, kit.NewBlock(5, "B5"), n.proofFor(5, "B5"))
+			returned++
+		})
+		addCancel(n, cancel)
+		if !s.Run(20000) {
+			x.Bad("C16", "livelock", "step horizon reached")
+		}
+		if !cancel {
+			if returned != 4 {
+				x.Bad("C14", "updatestate-blocked-or-failed", "only %d of 4 UpdateState calls returned while the worker is inside a slow SPI call; blocked=%v", returned, s.Blocked())
+			} else if h := uint64(n.M.State().Height()); h != 7 {
+				x.Bad("C14", "newest-sync-not-effective", "UpdateState(block 6) returned nil but the node ends at height %d (events %v)", h, tail(n.Events, 8))
+			}
+			checkSyncRounds(x, n)
+		}
+		finish(x, n, nil, "")
+	})
+
 	// S-blocked-leader: the node leads (h1,v0); RequestNewBlockProposal waits for its context. An election
 	// timeout or a sync must release it, and the late result must not be broadcast.
 	registerBoth("S-blocked-leader", []string{"C15", "C14"}, 1, 3, 4, func(x *X, cancel bool) {
